@@ -14,3 +14,15 @@ open Mud.C11
 #print axioms expiht_hermitian
 #print axioms delR_exp_hermitian
 #print axioms collapse_moments_zero
+#print axioms gamma_active_zero
+#print axioms sgn_mul_self
+#print axioms sign_factor
+#print axioms gamma_formula
+#print axioms gamma_zero_of_equal_moments
+#print axioms collapseScan_sound
+#print axioms collapseScan_nil_iff
+#print axioms otherStates_spec
+#print axioms otherStates_length
+#print axioms no_collapse_of_nonpos
+#print axioms collapseStep_spec
+#print axioms collapse_gives_pure_active
